@@ -22,6 +22,11 @@ func (ls *LState) CheckInt(n int) int {
 	if intv, ok := v.(LNumber); ok {
 		return int(intv)
 	}
+	if sv, ok := v.(LString); ok {
+		if num, err := parseNumber(string(sv)); err == nil {
+			return int(num)
+		}
+	}
 	ls.TypeError(n, LTNumber)
 	return 0
 }
@@ -30,6 +35,11 @@ func (ls *LState) CheckInt64(n int) int64 {
 	v := ls.Get(n)
 	if intv, ok := v.(LNumber); ok {
 		return int64(intv)
+	}
+	if sv, ok := v.(LString); ok {
+		if num, err := parseNumber(string(sv)); err == nil {
+			return int64(num)
+		}
 	}
 	ls.TypeError(n, LTNumber)
 	return 0
@@ -149,6 +159,11 @@ func (ls *LState) OptInt(n int, d int) int {
 	if intv, ok := v.(LNumber); ok {
 		return int(intv)
 	}
+	if sv, ok := v.(LString); ok {
+		if num, err := parseNumber(string(sv)); err == nil {
+			return int(num)
+		}
+	}
 	ls.TypeError(n, LTNumber)
 	return 0
 }
@@ -160,6 +175,11 @@ func (ls *LState) OptInt64(n int, d int64) int64 {
 	}
 	if intv, ok := v.(LNumber); ok {
 		return int64(intv)
+	}
+	if sv, ok := v.(LString); ok {
+		if num, err := parseNumber(string(sv)); err == nil {
+			return int64(num)
+		}
 	}
 	ls.TypeError(n, LTNumber)
 	return 0
